@@ -227,6 +227,25 @@ def run(prop, tier, replay):
         "samples": [scripts[0], (queries[len(queries) // 2] if queries else None)],
         "exhaustive": False,
     }
+    if not replay:
+        # the path-keyed front (Project / SourceRegistry): key -> id must stay an injection through every history
+        mc2 = run_tlc("MCSourceRegistry", "MCSourceRegistry", workers=2, timeout=600, tag="mc-c13-registry")
+        neg = run_tlc("MCSourceRegistry", "MCSourceRegistry_reuse", workers=2, timeout=600, allow_violation=True, tag="mc-c13-registry-neg")
+        if "Invariant Injective is violated" not in neg["stdout"]:
+            raise ToolError("the deviation MCSourceRegistry_reuse does not violate Injective:\n" + neg["stdout"][-1500:])
+        ptr = work / "projreg.ndjson"
+        tpv(["projreg-run", "--seed", seed(), "--runs", 300 if tier == "quick" else 6000, "--out", ptr], timeout=3000)
+        prow = read_ndjson(ptr)
+        pver, _ = validate_trace("SourceRegistryTrace", ptr, tag="trace-c13-registry", timeout=1800)
+        if pver["events"] != len(prow):
+            raise ToolError("SourceRegistryTrace did not consume every event")
+        pruns = split_runs(prow)
+        for b in pver["bad"]:
+            why = "+".join(sorted(b["why"]))
+            rep.violation(f"project-registry:{why}", {"project_registry": True, "seed": seed(), "why": b["why"], "trace": pruns[b["run"] - 1][: 40]},
+                          f"Project history (run {b['run']}): {why} at {json.dumps(prow[b['line'] - 1])[:200]}")
+        cov.update({"project_registry_histories": len(pruns), "project_registry_steps": pver["steps"], "project_registry_rejected": len(pver["bad"]),
+                    "source_registry_model_states": mc2.get("distinct", 0)})
     rc = rep.finish(cov, assumptions=[
         "the reference is a brand-new Database loaded with the same (FileId -> text) map under the same FileIds; it is loaded in ascending "
         "and in descending FileId order and both must agree with the long-lived database (each load order is itself a history)",
